@@ -207,6 +207,11 @@ def jobs(tier):
     for f in ([("json",), ("cur",)] if q else [("json",), ("cur",), ("json", "addP"), ("json", "addU"), ("addR", "json")]):
         js.append(Job("init2[%s+%d]" % (",".join(f), n_free), h_queue, dict(fixed_ops=f, n_free=n_free, init=2), functions=FUNCS, max_paths=2000000, timeout=12000,
                       bounds=dict(initial_events=2, operations=len(f) + n_free, first_ops=list(f), alphabet=OPS, timestamps="[0,%d]" % TMAX), cost=9))
+    # four pending events (the latest inserted before earlier ones is among the orderings), then the observers
+    for f in ([("addR", "addU", "last")] if q else [("addR", "addU", "last"), ("addP", "addP", "last"), ("addU", "addR", "json", "last")]):
+        nf4 = 0 if q else 1
+        js.append(Job("init2_four_pending[%s+%d]" % (",".join(f), nf4), h_queue, dict(fixed_ops=f, n_free=nf4, init=2), functions=FUNCS, max_paths=2000000, timeout=12000,
+                      bounds=dict(initial_events=2, operations=len(f) + nf4, first_ops=list(f), alphabet=OPS, timestamps="[0,%d]" % TMAX), cost=27))
     # bulk insertion (add_events) in the middle of a history, with the observers before and after
     for f in ([("last", "addB", "last"), ("get", "addB", "last"), ("addB", "cur")] if q else [("last", "addB", "last"), ("get", "addB", "last"), ("addB", "cur"), ("cur", "addB", "last"), ("addB", "json", "last"), ("json", "addB", "get")]):
         js.append(Job("batch[%s+%d]" % (",".join(f), n_free), h_queue, dict(fixed_ops=f, n_free=n_free, init=1), functions=FUNCS, max_paths=2000000, timeout=12000, expect_tags=("batch",),
